@@ -42,7 +42,7 @@ import (
 // the tree built so far to the builder and keeps the builder's result.
 
 func init() {
-	register(&Rule{ID: "R-prec-operand-source", Floor: 32, Run: ruleR2parseOperandSource,
+	register(&Rule{ID: "R-prec-operand-source", Floor: 42, Run: ruleR2parseOperandSource,
 		Doc: "premise of R-prec / DESIGN Appendix C, decided on every successful path of every parser method: each slot of type ast.Expression filled by the parser (node-literal field, ast-constructor argument, element appended to a []Expression, field store) comes from the precedence-climbing entry expression(<power>) with the power the position requires (infix/assignment builders: the operator's right power read from the cursor before anything is consumed; prefix builder: a constant between the binary levels and call/index/member; all other positions: 0), from a parameter (the left operand the climbing loop hands over), from nothing (optional child), from a primary parser in the restricted mode the climbing function itself never selects (match-arm patterns), from a recursive call of the same function (else-if chain), from a field of another parser's result, or from a transparent wrapper of expression(<power>). A primary parser called directly (e.g. chosen by peeking at the next token) ends the operand before the postfix/infix operators that follow it, which then attach to the enclosing node: `-(a).b` parses as `(-(a)).b`, breaking 'prefix operators bind looser than call, index and member access' and 'parentheses around a single node never change the tree' (C07). Also: the operator field of a node is the conversion of the cursor's kind read before any token is consumed after the dispatch; each clause of the climbing loop passes the tree built so far and keeps the builder's result."})
 }
 
@@ -70,6 +70,8 @@ type r2parseOperandRule struct {
 	wrap      map[*types.Func]*r2parseWrapper
 	family    map[*ast.FuncDecl]bool // the climbing method, its transparent wrappers, their first-operand parsers
 	curDom    *pxOpMap               // conversion table applied by the function being classified (infix / assignment)
+	fwd       map[string]bool        // memo of forwardsTo
+	producers map[*types.Func]bool   // methods whose result is an operand of the climbing loop (primary parsers, transitively)
 	aggs      map[string]*r2parseSlotAgg
 	order     []string
 }
@@ -260,6 +262,7 @@ func r2parseOperandSource(e *r2parseEngine) []Obligation {
 		})
 	}
 
+	R.producers = R.operandProducers()
 	exprSlice := types.NewSlice(e.exprT)
 	for _, fd := range e.fds {
 		fn := e.fnOf[fd]
@@ -373,6 +376,9 @@ func r2parseOperandSource(e *r2parseEngine) []Obligation {
 				}
 				if fd == e.exprFd {
 					R.checkLoop(st, results)
+				}
+				if R.producers[fn] && !R.loopBuild[fn] && !R.family[fd] && class != "prefix" && class != "right" {
+					R.checkTail(fkey, fd, st)
 				}
 			}
 			run.walk()
@@ -628,6 +634,9 @@ func (R *r2parseOperandRule) classify(run *r2parseRun, cx *r2parseContext, selec
 		if v.fn == run.fn {
 			return Discharged, "recursive chain: " + v.fn.Name() + "()"
 		}
+		if R.forwardsTo(v.fn, run.fn, 0) {
+			return Discharged, "recursive chain through the forwarding helper " + v.fn.Name() + "()"
+		}
 		return Violated, fmt.Sprintf("the operand is the result of %s() called directly, not of %s(<power>): the operand ends where %s() ends, so the call/index/member/infix operators that follow it are not consumed at this position's binding power and attach to the enclosing node instead", v.fn.Name(), e.exprFn.Name(), v.fn.Name())
 	case r2parseParam:
 		return Discharged, "parameter " + v.obj.Name() + " (operand handed over by the caller)"
@@ -801,4 +810,156 @@ func (R *r2parseOperandRule) flipWitness() string {
 		return "with today's table no operator pair changes its grouping, but the tree then depends on the LEFT column where the argument of DESIGN Appendix C needs the right one"
 	}
 	return fmt.Sprintf("%d ordered operator pair(s) change their grouping: %s", n, strings.Join(ex, "; "))
+}
+
+// operandProducers: the methods whose result becomes the first operand of the
+// climbing loop — called by the climbing family outside the loop with a node
+// result — and, transitively, the methods whose result those forward
+// (`return self.g()`, `x, err := self.g(); … return x, …`).
+func (R *r2parseOperandRule) operandProducers() map[*types.Func]bool {
+	e := R.e
+	out := map[*types.Func]bool{}
+	var work []*types.Func
+	add := func(g *types.Func) {
+		if g == nil || out[g] || g == e.exprFn || !e.sp.isConsumer(g) || e.sp.decls[g] == nil {
+			return
+		}
+		sig := g.Type().(*types.Signature)
+		if sig.Results().Len() == 0 || !e.isNodeType(sig.Results().At(0).Type()) {
+			return
+		}
+		if _, isSlice := sig.Results().At(0).Type().Underlying().(*types.Slice); isSlice {
+			return
+		}
+		out[g] = true
+		work = append(work, g)
+	}
+	var fams []*ast.FuncDecl
+	for fd := range R.family {
+		fams = append(fams, fd)
+	}
+	sort.Slice(fams, func(i, j int) bool { return fams[i].Pos() < fams[j].Pos() })
+	for _, fd := range fams {
+		ast.Inspect(fd.Body, func(n ast.Node) bool {
+			if call, ok := n.(*ast.CallExpr); ok {
+				if fd == e.exprFd && call.Pos() > e.loop.Body.Lbrace && call.End() < e.loop.Body.Rbrace {
+					return true
+				}
+				add(CalleeOf(e.info, call))
+			}
+			return true
+		})
+	}
+	for len(work) > 0 {
+		g := work[0]
+		work = work[1:]
+		fd := e.sp.decls[g]
+		if fd == nil || fd.Body == nil {
+			continue
+		}
+		// locals defined as result #0 of a parser-method call
+		from := map[types.Object]*types.Func{}
+		ast.Inspect(fd.Body, func(n ast.Node) bool {
+			if as, ok := n.(*ast.AssignStmt); ok && len(as.Rhs) == 1 && len(as.Lhs) >= 1 {
+				if call, ok := ast.Unparen(as.Rhs[0]).(*ast.CallExpr); ok {
+					if id, ok := as.Lhs[0].(*ast.Ident); ok && id.Name != "_" {
+						o := e.info.Defs[id]
+						if o == nil {
+							o = e.info.Uses[id]
+						}
+						if o != nil {
+							from[o] = CalleeOf(e.info, call)
+						}
+					}
+				}
+			}
+			return true
+		})
+		ast.Inspect(fd.Body, func(n ast.Node) bool {
+			if _, ok := n.(*ast.FuncLit); ok {
+				return false
+			}
+			ret, ok := n.(*ast.ReturnStmt)
+			if !ok || len(ret.Results) == 0 {
+				return true
+			}
+			switch x := ast.Unparen(ret.Results[0]).(type) {
+			case *ast.CallExpr:
+				if tv, ok := e.info.Types[x.Fun]; ok && tv.IsType() && len(x.Args) == 1 {
+					if c2, ok := ast.Unparen(x.Args[0]).(*ast.CallExpr); ok {
+						add(CalleeOf(e.info, c2))
+					}
+				} else {
+					add(CalleeOf(e.info, x))
+				}
+			case *ast.Ident:
+				add(from[e.info.Uses[x]])
+			}
+			return true
+		})
+	}
+	return out
+}
+
+// checkTail: an operand producer must not END with a call of the climbing entry
+// (directly or through a transparent wrapper): after its last full expression the
+// construct consumes, or at least tests for, a token of its own. Otherwise the
+// construct is not an operand any more — the nested expression(0) swallows every
+// operator that follows the construct.
+func (R *r2parseOperandRule) checkTail(fkey string, fd *ast.FuncDecl, st *r2parseState) {
+	e := R.e
+	a := R.agg(fkey+"|(tail) the construct is delimited after its last full expression", fd.Pos())
+	a.seen++
+	for _, m := range st.made {
+		if m.fn != e.exprFn {
+			if w := R.wrapperOf(m.fn); !w.ok || w.busy {
+				continue
+			}
+		}
+		if m.end == nil || m.end.lb == nil || st.lastCons > m.end.lb.seq {
+			continue
+		}
+		a.fail(Violated, fmt.Sprintf("%s() is an operand of the precedence-climbing loop but ends with %s at %s and consumes nothing after it: the nested full expression takes every operator that follows the construct (`X … + 1` parses as `X … (… + 1)`), the construct is no longer a single operand; path %s",
+			e.fnOf[fd].Name(), m.desc, e.c.Pos(m.call.Pos()), st.path()))
+		return
+	}
+	if a.status == Discharged {
+		a.notes["no successful path ends with a call of the climbing entry"] = true
+	}
+}
+
+// forwardsTo: every successful return of h delivers the result of a call of target
+// (possibly through further forwarding helpers).
+func (R *r2parseOperandRule) forwardsTo(h, target *types.Func, depth int) bool {
+	e := R.e
+	fd := e.sp.decls[h]
+	if fd == nil || fd.Body == nil || h == e.exprFn || depth > 3 {
+		return false
+	}
+	key := h.Name() + "→" + target.Name()
+	if v, ok := R.fwd[key]; ok {
+		return v
+	}
+	if R.fwd == nil {
+		R.fwd = map[string]bool{}
+	}
+	R.fwd[key] = false
+	run := e.newRun(fd, nil)
+	n, good := 0, true
+	run.obs.exit = func(st *r2parseState, o outcome, success bool, results []*r2parseVal) {
+		if !success {
+			return
+		}
+		n++
+		if len(results) == 0 || results[0].k != r2parseCall || results[0].idx != 0 || results[0].fn == nil {
+			good = false
+			return
+		}
+		if g := results[0].fn; g != target && !R.forwardsTo(g, target, depth+1) {
+			good = false
+		}
+	}
+	run.walk()
+	R.fwd[key] = good && n > 0 && len(run.undec) == 0
+	return R.fwd[key]
 }
